@@ -43,7 +43,7 @@ THEOREMS = ["PorepyVerif.C17." + t for t in (
 LEAN_MODULES = ["PorepyVerif.C17.Props"]
 AUDIT = "PorepyVerif/C17/Audit.lean"
 DRIVER = "PorepyVerif/C17/Driver.lean"
-N = {"quick": 350, "thorough": 10000}
+N = {"quick": 350, "thorough": 7000}
 RULE = ("one grid per case, built by the real code: CartGrid 1/2/3-d, StructuredTriangleGrid, StructuredTetrahedralGrid, the 2-d subdomain of "
         "pp.meshing.cart_grid with one fracture (split faces = boundary faces inside the domain), or a raw signed incidence handed to pp.Grid "
         "(random cell graph, both normal orientations on boundary faces; 15% ill-formed: a face with three cells). Scenarios: 'matrices' = random "
@@ -52,7 +52,10 @@ RULE = ("one grid per case, built by the real code: CartGrid 1/2/3-d, Structured
         "flags written directly (interior faces flagged, both flags, no flag); 'noflow' = all-Neumann zero data with any flux; 'divfree' = sum of "
         "random circulations along cycles of the cell graph (zero on the boundary), time step and volumes chosen so that dt*outflow <= V with "
         "equality in many cells; 'through' = circulations plus paths entering and leaving through Dirichlet boundary faces. 1-3 components, "
-        "1-5 explicit steps with dyadic cell values / boundary values. non-trivial = at least 2 cells and a nonzero flux; distinct = distinct cases")
+        "1-5 explicit steps with dyadic cell values / boundary values. 45% of the cases are HISTORIES of 2-4 discretize calls on ONE data dictionary and ONE "
+        "Upwind object: between calls the BoundaryCondition object is modified in place (or replaced by an equal / different object, or the code's default "
+        "branch is entered / left), flux values are rescaled with the same signs or sign-flipped (written in place or as a new array), num_components "
+        "changes; every call is checked. non-trivial = at least 2 cells and a nonzero flux; distinct = distinct cases")
 TRUSTED = [
     "modelled, not verified: scipy.sparse glue (sps.find enumeration order, coo->csr conversion, sps.kron, np.delete, matrix products in "
     "assemble_matrix_rhs), numpy fancy assignment in cell_faces_as_dense (last write wins), np.sign on binary64 (NaN / -0.0 fluxes are not generated)",
@@ -73,7 +76,8 @@ EXPLANATION = ("FULL: model = Upwind.discretize branch for branch over the store
                "stay in the initial bounds (no-flow statement of the property, and its generalisation to Dirichlet in/outflow with bounded inflow data), for any "
                "number of steps; Kronecker expansion of any sparse matrix has block-diagonal-per-component entries and acts component-wise. Correspondence "
                "compares the three matrices, their shapes, assemble_matrix_rhs (matrix, rhs, ValueError for >1 component), ValueError cases and 1-5 explicit "
-               "steps exactly (rationals).")
+               "steps exactly (rationals), after every discretize call of a history (the model is stateless: it sees only the current inputs); the oracle "
+               "additionally demands that the stored matrices equal those of a fresh discretisation of the current inputs (keys history-stale-*).")
 ASSUMPTIONS = [
     "selection / boundary-row / maximum-principle theorems assume the decidable well-formedness predicate WF (signs +-1, at most one cell on each side of a "
     "face); every grid built by porepy constructors / fracture meshing in the sample satisfies it (the oracle recomputes it from cell_faces.toarray())",
@@ -362,7 +366,72 @@ def gen_case(rng, tier):
         "dt": frac(dt),
         "nsteps": nsteps,
     }
+    if rng.random() < 0.45:
+        case["stages"] = _gen_stages(rng, case, fc, nf, nc)
     return case
+
+
+def _gen_stages(rng, case, fc, nf, nc):
+    """a short history on ONE data dictionary / Upwind object: after the first discretize the inputs are changed (boundary flags in place
+    or through a new object, flux signs / magnitudes in place or through a new array, number of components) and discretize is called again."""
+    stages = []
+    cur = {key: case[key] for key in ("flux", "bc", "k", "omit_k", "bv", "c")}
+    bfaces = [f for f in range(nf) if len(fc[f]) == 1]
+    for _ in range(rng.randint(1, 3)):
+        st = dict(cur, how_bc="keep", how_flux=rng.choice(["inplace", "new"]), what=[])
+        for kind in rng.sample(["bc-inplace", "bc-inplace", "bc-new-equal", "bc-new", "flux-scale", "flux-flip", "k", "none"], rng.randint(1, 2)):
+            st["what"].append(kind)
+            if kind in ("bc-inplace", "bc-new"):
+                bc = st["bc"]
+                if bc is None or (kind == "bc-new" and rng.random() < 0.15):
+                    # leave / enter the default branch of the code (no 'bc' in the parameters)
+                    bc = None if bc is not None else {"mode": "ctor", "faces": bfaces, "cond": [rng.choice(["dir", "neu"]) for _ in bfaces]}
+                    st["how_bc"] = "new"
+                elif bc["mode"] == "ctor":
+                    faces = bc["faces"] or bfaces
+                    cond = list(bc["cond"]) if bc["faces"] else ["neu"] * len(bfaces)
+                    for j in rng.sample(range(len(faces)), min(len(faces), rng.randint(1, 3))) if faces else []:
+                        cond[j] = "dir" if cond[j] != "dir" else "neu"
+                    bc = {"mode": "ctor", "faces": faces, "cond": cond}
+                    st["how_bc"] = "inplace" if kind == "bc-inplace" else "new"
+                else:
+                    is_dir, is_neu = list(bc["is_dir"]), list(bc["is_neu"])
+                    for f in rng.sample(range(nf), min(nf, rng.randint(1, 3))):
+                        if rng.random() < 0.5:
+                            is_dir[f] = not is_dir[f]
+                        else:
+                            is_neu[f] = not is_neu[f]
+                    bc = {"mode": "flags", "is_dir": is_dir, "is_neu": is_neu}
+                    st["how_bc"] = "inplace" if kind == "bc-inplace" else "new"
+                st["bc"] = bc
+            elif kind == "bc-new-equal":
+                if st["how_bc"] == "keep":
+                    st["how_bc"] = "new"
+            elif kind == "flux-scale":
+                m = rng.choice([2, Fraction(1, 2), 3])
+                st["flux"] = [frac(Fraction(x) * (m if rng.random() < 0.7 else 1)) for x in st["flux"]]
+            elif kind == "flux-flip":
+                fl = [Fraction(x) for x in st["flux"]]
+                for f in rng.sample(range(nf), min(nf, rng.randint(1, 4))):
+                    fl[f] = -fl[f] if fl[f] != 0 and rng.random() < 0.7 else Fraction(rng.randint(-2, 2))
+                if rng.random() < 0.15:
+                    fl = [-x for x in fl]
+                st["flux"] = [frac(x) for x in fl]
+            elif kind == "k":
+                k = rng.choice([x for x in (1, 2, 3) if x != st["k"]])
+                st["k"] = k
+                st["omit_k"] = k == 1 and rng.random() < 0.5
+                st["bv"] = [[frac(_dy(rng, -8, 8)) for _ in range(nf)] for _ in range(k)]
+                st["c"] = [[frac(_dy(rng, -8, 8)) for _ in range(nc)] for _ in range(k)]
+        stages.append(st)
+        cur = {key: st[key] for key in ("flux", "bc", "k", "omit_k", "bv", "c")}
+    return stages
+
+
+def _stages(case):
+    """the inputs of every discretize call of the history, each as a self-contained one-stage case"""
+    base = {key: v for key, v in case.items() if key != "stages"}
+    return [base] + [dict(base, **st) for st in case.get("stages", [])]
 
 
 # ----------------------------------------------------------------------------- the real code
@@ -466,48 +535,98 @@ def _steps(g, mats, case):
     return out
 
 
+def _run_history(case):
+    """Every discretize call of the history on ONE data dictionary and ONE Upwind object.
+    -> grid, [(stage view, ('err', exception) | ('ok', (U, D, N) copies, assemble output))]"""
+    import porepy as pp
+
+    g = build_grid(case["grid"])
+    params = {}
+    data = {pp.PARAMETERS: {"transport": params}, pp.DISCRETIZATION_MATRICES: {"transport": {}}}
+    up = pp.Upwind("transport")
+    res = []
+    for n, st in enumerate(_stages(case)):
+        flux = np.array([float(Fraction(x)) for x in st["flux"]])
+        if n > 0 and st.get("how_flux") == "inplace":
+            params["darcy_flux"][:] = flux
+        else:
+            params["darcy_flux"] = flux
+        how = st.get("how_bc", "new") if n > 0 else "new"
+        if st["bc"] is None:
+            params.pop("bc", None)
+        elif how in ("inplace", "keep") and "bc" in params:
+            fresh = _make_bc(g, st["bc"])
+            bc = params["bc"]  # the SAME object, modified in place (bc.is_dir[f] = True; bc.is_neu[f] = False ...)
+            bc.is_dir[:] = fresh.is_dir
+            bc.is_neu[:] = fresh.is_neu
+            bc.is_rob[:] = fresh.is_rob
+        else:
+            params["bc"] = _make_bc(g, st["bc"])
+        if st.get("omit_k"):
+            params.pop("num_components", None)
+        else:
+            params["num_components"] = st["k"]
+        params["bc_values"] = np.array([float(Fraction(x)) for x in st["bv"][0]])
+        try:
+            up.discretize(g, data)
+        except Exception as e:
+            res.append((st, ("err", e)))
+            continue
+        m = data[pp.DISCRETIZATION_MATRICES]["transport"]
+        mats = tuple(m[key].copy() for key in (up.upwind_matrix_key, up.bound_transport_dir_matrix_key, up.bound_transport_neu_matrix_key))
+        try:
+            A, rhs = up.assemble_matrix_rhs(g, data)
+            asm = {"A": _trip(A), "rhs": [frac(v) for v in np.asarray(rhs).ravel()]}
+        except Exception as e:
+            asm = err_kind(e)
+        res.append((st, ("ok", mats, asm)))
+    return g, res
+
+
 def impl_run(case):
-    try:
-        g, bc, data, up = _discretize(case)
-    except Exception as e:
-        return err_kind(e)
-    m = data["discretization_matrices"]["transport"]
-    mats = (m[up.upwind_matrix_key], m[up.bound_transport_dir_matrix_key], m[up.bound_transport_neu_matrix_key])
-    out = {
-        "shapes": [list(map(int, x.shape)) for x in mats],
-        "upwind": _trip(mats[0]),
-        "dir": _trip(mats[1]),
-        "neu": _trip(mats[2]),
-        "steps": [[frac(v) for v in x] for x in _steps(g, mats, case)],
-    }
-    try:
-        A, rhs = up.assemble_matrix_rhs(g, data)
-        out["assemble"] = {"A": _trip(A), "rhs": [frac(v) for v in np.asarray(rhs).ravel()]}
-    except Exception as e:
-        out["assemble"] = err_kind(e)
-    return out
+    g, res = _run_history(case)
+    outs = []
+    for st, r in res:
+        if r[0] == "err":
+            outs.append(err_kind(r[1]))
+            continue
+        mats = r[1]
+        outs.append({
+            "shapes": [list(map(int, x.shape)) for x in mats],
+            "upwind": _trip(mats[0]),
+            "dir": _trip(mats[1]),
+            "neu": _trip(mats[2]),
+            "steps": [[frac(v) for v in x] for x in _steps(g, mats, st)],
+            "assemble": r[2],
+        })
+    return outs
 
 
 # ----------------------------------------------------------------------------- the model
 def model_ops(case):
+    """one stateless model evaluation per discretize call of the history (flags from a FRESH BoundaryCondition built from the stage's recipe)"""
     g = build_grid(case["grid"])
-    bc = _make_bc(g, case["bc"])
-    is_dir, is_neu = _flags(g, case["bc"], bc)
-    return [{
-        "op": "upwind",
-        "nf": int(g.num_faces),
-        "nc": int(g.num_cells),
-        "inc": incidences(g),
-        "flux": case["flux"],
-        "is_dir": is_dir,
-        "is_neu": is_neu,
-        "k": case["k"],
-        "bv": case["bv"],
-        "c": case["c"],
-        "V": case["V"],
-        "dt": case["dt"],
-        "nsteps": case["nsteps"],
-    }]
+    inc = incidences(g)
+    ops = []
+    for st in _stages(case):
+        bc = _make_bc(g, st["bc"])
+        is_dir, is_neu = _flags(g, st["bc"], bc)
+        ops.append({
+            "op": "upwind",
+            "nf": int(g.num_faces),
+            "nc": int(g.num_cells),
+            "inc": inc,
+            "flux": st["flux"],
+            "is_dir": is_dir,
+            "is_neu": is_neu,
+            "k": st["k"],
+            "bv": st["bv"],
+            "c": st["c"],
+            "V": st["V"],
+            "dt": st["dt"],
+            "nsteps": st["nsteps"],
+        })
+    return ops
 
 
 def _agg(trips):
@@ -518,15 +637,16 @@ def _agg(trips):
 
 
 def model_decode(outs, case):
-    o = outs[0]
-    if "err" in o:
-        return o
-    o = dict(o)
-    for key in ("upwind", "dir", "neu"):
-        o[key] = _agg(o[key])
-    if "A" in o.get("assemble", {}):
-        o["assemble"] = {"A": _agg(o["assemble"]["A"]), "rhs": o["assemble"]["rhs"]}
-    return o
+    res = []
+    for o in outs:
+        if "err" not in o:
+            o = dict(o)
+            for key in ("upwind", "dir", "neu"):
+                o[key] = _agg(o[key])
+            if "A" in o.get("assemble", {}):
+                o["assemble"] = {"A": _agg(o["assemble"]["A"]), "rhs": o["assemble"]["rhs"]}
+        res.append(o)
+    return res
 
 
 def compare(impl, model, case):
@@ -535,7 +655,38 @@ def compare(impl, model, case):
 
 # ----------------------------------------------------------------------------- the property on the real code
 def oracle(case):
-    g = build_grid(case["grid"])
+    """the property after EVERY discretize call of the history; additionally the stored matrices must be those of a fresh
+    discretisation (new data dictionary, new Upwind object, new BoundaryCondition) of the inputs current at that call"""
+    g, res = _run_history(case)
+    for n, (st, r) in enumerate(res):
+        if n > 0:
+            try:
+                _, _, data, up = _discretize(st)
+                m = data["discretization_matrices"]["transport"]
+                fresh = ("ok", (m[up.upwind_matrix_key], m[up.bound_transport_dir_matrix_key], m[up.bound_transport_neu_matrix_key]))
+            except Exception as e:
+                fresh = ("err", e)
+            prev = res[n - 1][0]
+            changed = [key for key in ("bc", "flux", "k") if st[key] != prev[key]] or ["nothing"]
+            tag = (f"call {n + 1} of a history on one data dictionary (changed since the previous call: {'+'.join(changed)}; "
+                   f"bc object {'modified in place / kept' if st.get('how_bc') in ('inplace', 'keep') else 'replaced'}, flux array {'written in place' if st.get('how_flux') == 'inplace' else 'replaced'})")
+            if fresh[0] != r[0]:
+                return {"what": f"{tag}: {'raised ' + type(r[1]).__name__ if r[0] == 'err' else 'no error'}, but a fresh discretisation of the same inputs "
+                                f"{'raises ' + type(fresh[1]).__name__ if fresh[0] == 'err' else 'succeeds'}", "key": "history-stale-error-state"}
+            if r[0] == "ok":
+                for name, a, b in zip(("upwind", "bound_transport_dir", "bound_transport_neu"), r[1], fresh[1]):
+                    if a.shape != b.shape or _trip(a) != _trip(b):
+                        return {"what": f"{tag}: stored {name} matrix differs from a fresh discretisation of the current inputs (stale discretisation)",
+                                "key": "history-stale-matrices"}
+        o = _oracle_stage(g, st, r)
+        if o is not None:
+            if n > 0:
+                o = {"what": f"call {n + 1} of a history: " + o["what"], "key": o["key"]}
+            return o
+    return None
+
+
+def _oracle_stage(g, case, r):
     nf, nc, k = g.num_faces, g.num_cells, case["k"]
     CF = np.asarray(g.cell_faces.toarray())
     fc = [[(int(c), int(CF[f, c])) for c in np.nonzero(CF[f])[0]] for f in range(nf)]
@@ -551,16 +702,13 @@ def oracle(case):
     interior = [len(l) == 2 for l in fc]
     valid_bc = all((not is_dir[f] and not is_neu[f]) if interior[f] else (is_dir[f] != is_neu[f]) for f in range(nf))
     gk = case["grid"]["kind"]
-    try:
-        g2, _, data, up = _discretize(case)
-    except Exception as e:
+    if r[0] == "err":
+        e = r[1]
         if valid_bc:
             return {"what": f"discretize raised {type(e).__name__}: {e} on a grid whose boundary faces are all Dirichlet or Neumann", "key": f"raises-{type(e).__name__}"}
         return None
-    m = data["discretization_matrices"]["transport"]
-    Uk = np.asarray(m[up.upwind_matrix_key].toarray())
-    Dk = np.asarray(m[up.bound_transport_dir_matrix_key].toarray())
-    Nk = np.asarray(m[up.bound_transport_neu_matrix_key].toarray())
+    mats = r[1]
+    Uk, Dk, Nk = (np.asarray(x.toarray()) for x in mats)
     if Uk.shape != (nf * k, nc * k) or Dk.shape != (nf * k, nf * k) or Nk.shape != (nf * k, nf * k):
         return {"what": f"shapes {Uk.shape} {Dk.shape} {Nk.shape} for nf={nf} nc={nc} k={k}", "key": "shape"}
     # Kronecker expansion: entry (f*k+a, c*k+b) = base[f, c] if a == b else 0
@@ -615,7 +763,6 @@ def oracle(case):
         if not is_dir[f] and d != 0:
             return {"what": f"{ctx}: bound_transport_dir entry {d} on a non-Dirichlet face", "key": "dir-on-other-face"}
     # explicit steps built from the real matrices
-    mats = (m[up.upwind_matrix_key], m[up.bound_transport_dir_matrix_key], m[up.bound_transport_neu_matrix_key])
     xs = _steps(g, mats, case)
     V = [Fraction(v) for v in case["V"]]
     dt = Fraction(case["dt"])
@@ -656,6 +803,9 @@ def nontrivial(case):
 
 
 def shrink_candidates(case):
+    st = case.get("stages", [])
+    for i in range(len(st)):
+        yield dict(case, stages=st[:i] + st[i + 1:]) if len(st) > 1 else {key: v for key, v in case.items() if key != "stages"}
     if case["nsteps"] > 1:
         yield dict(case, nsteps=case["nsteps"] - 1)
     if case["k"] > 1:
@@ -671,11 +821,14 @@ def stats(cases, impl_outs):
     kinds = Counter(c["grid"]["kind"] + (str(len(c["grid"]["dims"])) if "dims" in c["grid"] else "") for c in cases)
     scen = Counter(c["scenario"] for c in cases)
     bcm = Counter("default" if c["bc"] is None else c["bc"]["mode"] for c in cases)
-    errs = sum(1 for o in impl_outs if isinstance(o, dict) and "err" in o)
+    errs = sum(1 for outs in impl_outs if isinstance(outs, list) for o in outs if "err" in o)
     zero = sum(1 for c in cases for x in c["flux"] if Fraction(x) == 0)
     tot = sum(len(c["flux"]) for c in cases)
     return {"grid_kinds": dict(kinds), "scenarios": dict(scen), "bc_modes": dict(bcm), "components": dict(Counter(str(c["k"]) for c in cases)),
             "discretize_errors": errs, "faces_total": tot, "faces_zero_flux": zero,
             "robin_cases": sum(1 for c in cases if c["bc"] and c["bc"]["mode"] == "ctor" and "rob" in c["bc"]["cond"]),
             "max_faces": max((len(c["flux"]) for c in cases), default=0), "steps_total": sum(c["nsteps"] for c in cases),
-            "oracle_hypothesis_classes_with_nonzero_flux": dict(_CLS)}
+            "oracle_hypothesis_classes_with_nonzero_flux": dict(_CLS),
+            "histories": sum(1 for c in cases if c.get("stages")), "discretize_calls": sum(1 + len(c.get("stages", [])) for c in cases),
+            "history_changes": dict(Counter(w for c in cases for st in c.get("stages", []) for w in st["what"])),
+            "history_bc_how": dict(Counter(st["how_bc"] for c in cases for st in c.get("stages", [])))}
